@@ -155,3 +155,50 @@ def strip_named(t: T) -> T:
 
 def fmt(t) -> str:
     return tm.show(t)[:400]
+
+
+# ------------------------------------------------------------------ E-CMP
+_FLIP = {"Lt": "Gt", "Gt": "Lt", "LtE": "GtE", "GtE": "LtE", "Eq": "Eq",
+         "NotEq": "NotEq"}
+_NEG = {"Lt": "GtE", "GtE": "Lt", "Gt": "LtE", "LtE": "Gt", "Eq": "NotEq",
+        "NotEq": "Eq"}
+
+
+def norm_cmp(atom: T, positive: bool = True):
+    """normalise a comparison literal to (lhs, rel, rhs) with rel in
+    {Lt, LtE, Eq, NotEq}; `not (a > b)` and `a <= b` and `b >= a` coincide"""
+    if atom.op == "not":
+        return norm_cmp(atom.args[0], not positive)
+    if atom.op != "cmp":
+        return None
+    op, l, r = atom.args
+    if op not in _NEG:
+        return None
+    if not positive:
+        op = _NEG[op]
+    if op in ("Gt", "GtE"):
+        op, l, r = _FLIP[op], r, l
+    return (l, op, r)
+
+
+def conj_literals(formula: T):
+    """literals of a conjunction (formula assumed and-of-literals at top)"""
+    if tm.is_const(formula):
+        return []
+    if formula.op == "and":
+        out = []
+        for a in formula.args:
+            out.extend(conj_literals(a))
+        return out
+    return [formula]
+
+
+def comparisons(formula: T):
+    """all normalised comparison literals that must hold (top-level
+    conjuncts only) for the formula to be true"""
+    out = []
+    for lit in conj_literals(formula):
+        n = norm_cmp(lit)
+        if n is not None:
+            out.append(n)
+    return out
